@@ -1,5 +1,6 @@
 import copy
 import enum
+import re
 from typing import Tuple
 
 import valida.data
@@ -159,10 +160,11 @@ class DataPath:
         ESC_CODE = rf"\{REPLACE}"
         is_escaped = False
         for k in list(spec.keys()):
-            if isinstance(k, str) and ESC_CODE in k:
+            # (the "path" key is recognised in any letter case, and so is its escaped form)
+            if isinstance(k, str) and ESC_CODE in k.lower():
                 is_escaped = True
                 spec_val = spec.pop(k)
-                k_new = k.replace(ESC_CODE, REPLACE)
+                k_new = re.sub(re.escape(ESC_CODE), lambda m: m.group()[1:], k, flags=re.I)
                 spec[k_new] = spec_val
         if is_escaped:
             return spec
@@ -198,6 +200,16 @@ class DataPath:
     @classmethod
     def from_json_like(cls, json_like, *args, **kwargs):
         return cls.from_spec(json_like)
+
+    def to_spec(self):
+        """Get a `{"path[.<datum type>][.<multi type>]": parts}` specification, as accepted
+        by `from_spec`."""
+        key = "path"
+        if self.DATUM_TYPE.value:
+            key += f".{self.DATUM_TYPE.name.lower()}"
+        if self.MULTI_TYPE.value:
+            key += f".{self.MULTI_TYPE.name.lower()}"
+        return {key: self.to_part_specs()}
 
     def to_json_like(self, *args, **kwargs):
         out = self.to_part_specs()
